@@ -19,17 +19,20 @@ def full_list(tl):
 
 
 def _attr(v):
+    """every attribute as the same shape [kind, canonical text]: TLC cannot compare values of different shapes (a field
+    that changes from "" to [] must be a difference, not an evaluation error)"""
+    import json
     from reamber.base.lists.TimedList import TimedList
     import pandas as pd
     if isinstance(v, TimedList):
-        return full_list(v)
+        return {"kind": "timedlist", "val": json.dumps(full_list(v), sort_keys=True, default=str)}
     if isinstance(v, pd.DataFrame):
-        return {"df": v.to_json()}
+        return {"kind": "df", "val": v.to_json()}
     if isinstance(v, dict):
-        return {"dict": sorted((sval(k), str(x)) for k, x in v.items())}
+        return {"kind": "dict", "val": json.dumps(sorted((sval(k), str(x)) for k, x in v.items()))}
     if isinstance(v, (list, tuple)):
-        return {"list": [str(x) for x in v]}
-    return sval(v)
+        return {"kind": "list", "val": json.dumps([str(x) for x in v])}
+    return {"kind": "scalar", "val": sval(v)}
 
 
 def full_proj(obj):
